@@ -22,10 +22,10 @@ from ..oracles import outcome
 
 ID = 'C18'
 RULE = ("Hypothesis: subset of the seven sources x call-level form (callable, sequence with declining handlers first, mapping) x position of M "
-        "(direct field, List, Dict value, Optional, Tuple slot, outer-class field, top-level List, inside a third-party generic container served by a registered handler) x direction (from_data, into_data). "
+        "(direct field, List, Dict value, Optional, Tuple slot, outer-class field, top-level List, inside a third-party generic container served by a registered handler) x direction (from_data, into_data, construction of the containing class). "
         "Observed: the label of the source that produced the value. Non-trivial = at least two sources present and M below the root; distinct by case.")
 ASSUMPTIONS = [
-    "one process-wide dispatcher is registered with register_converter_handler at import and consults a per-case table, so global registration is not itself history",
+    "one process-wide dispatcher is registered with register_converter_handler at import and consults a per-case table; the converter cache is emptied at the start of every case, so that the table of an earlier case is not history (C10's subject)",
     "a field converter applies to the field as a whole, so F is only installed when M is the field's type",
 ]
 
@@ -104,7 +104,19 @@ def _bag_conv(elem: t.Any) -> t.Any:
     return BagConv()
 
 
+def _forget_converters() -> None:
+    """The dispatcher's table changes from case to case, which pane (reasonably) treats as history: converters made for builtin
+    types under an earlier table are memoised.  Precedence is what is checked here, history is C10's: start every case from an
+    empty converter cache."""
+    from pane.convert import make_converter
+    for attr in ('cache', '_keepalive'):
+        d = getattr(make_converter, attr, None)
+        if isinstance(d, dict):
+            d.clear()
+
+
 def _ensure_global() -> None:
+    _forget_converters()
     if _REGISTERED[0]:
         return
     from pane.convert import register_converter_handler, make_converter
@@ -129,9 +141,13 @@ def cases(draw) -> t.Any:
     srcs = [s for s in ORDER if draw(st.booleans())]
     pos = draw(st.sampled_from(POSITIONS))
     form = draw(st.sampled_from(FORMS))
-    direction = draw(st.sampled_from(['from', 'into']))
+    direction = draw(st.sampled_from(['from', 'into', 'from', 'into', 'ctor']))
     if direction == 'into' and draw(st.integers(0, 3)) == 3:
         pos = draw(st.sampled_from(ANY_POSITIONS))
+    if direction == 'ctor':
+        # the constructor of the containing class "performs conversion" of its arguments: with the field's own converter, else the
+        # class's handlers (own or inherited), else the type's protocol / built-ins / registered handlers; no call, no enclosing class
+        pos = draw(st.sampled_from(['direct', 'List', 'Dict', 'Optional', 'Tuple', 'Bag']))
     sub = draw(st.integers(0, 3)) == 3          # instantiate a subclass of the containing class
     # handlers on the containing class / its base that do NOT provide a converter for M (another type, or declining):
     # they must not stop the search from going on to the enclosing class
@@ -260,6 +276,23 @@ def check(case: t.Any, ctx: Ctx) -> None:
         data['inner'] = [{'m': wrap_data}] if inner_wrap == 'List' else {'m': wrap_data}
 
     ctx.evaluated()
+    if direction == 'ctor':
+        present_c = [s_ for s_ in ('F', 'O', 'I', 'P', 'G') if s_ in srcs]
+        expected_c = present_c[0] if present_c else None
+        (k, got) = outcome(lambda: InnerUsed(m=wrap_data))
+        if expected_c is None:
+            if k == 'ok':
+                ctx.fail('no-source-no-converter', f"ctor:{pos}", f"{ident}: no source provides a converter for M, but Inner(m=...) returned {short(got, 100)}")
+            return
+        if k != 'ok':
+            ctx.fail('precedence-ctor', f"{expected_c}:{type(got).__name__}", f"{ident}: Inner(m={wrap_data!r}) raised {type(got).__name__}: {str(got)[:200]}; "
+                     f"from_data of the same field gives the converter of source {expected_c}")
+            return
+        seen = unwrap(got.m)
+        if not isinstance(seen, Labeled) or seen.source != expected_c:
+            ctx.fail('precedence-ctor', f"want-{expected_c}-got-{getattr(seen, 'source', '?')}", f"{ident}: Inner(m={wrap_data!r}).m was produced by "
+                     f"{getattr(seen, 'source', seen)!r}, the documented order (as on the data paths) gives {expected_c!r}")
+        return
     if direction == 'from':
         (k, got) = outcome(lambda: pane.from_data(data, T, custom=custom))
         if expected is None:
